@@ -326,7 +326,7 @@ def c04_timeout(ctx):
     ctx.floor(n_gr, 3, "get_result sites")
     gsf = F(ctx, "BatchCompletionCallBack.get_status")
     g = cfg_of(gsf)
-    cmp_ = [n for n in nodes_of_type(gsf, ast.If) if isinstance(n.test, ast.Compare) and "timeout" in names_in(n.test) and isinstance(n.test.ops[0], (ast.Gt, ast.GtE)) and isinstance(n.test.left, ast.BinOp)]
+    cmp_ = [n for n in nodes_of_type(gsf, ast.If) if isinstance(n.test, ast.Compare) and "timeout" in names_in(n.test) and isinstance(n.test.ops[0], (ast.Lt, ast.LtE)) and isinstance(n.test.comparators[0], ast.BinOp) and dotted(n.test.left) == "timeout"]
     if not cmp_:
         ctx.bad(gsf, "get_status has no `elapsed > timeout` test")
     for n in cmp_:
@@ -905,11 +905,9 @@ def c01_each_once(ctx):
     for r in nodes_of_type(f, ast.Return):
         conds = g.conditions_at(g.nodes_of(r))
         for (_, t, pol) in conds:
-            if isinstance(t, ast.Compare) and isinstance(t.left, ast.Call) and call_name(t.left) == "len" and dotted(t.left.args[0]) == tv:
-                op = t.ops[0]
-                zero = const_value(t.comparators[0]) == 0
-                if zero and ((isinstance(op, ast.Eq) and pol) or (isinstance(op, (ast.NotEq, ast.Gt)) and not pol)):
-                    allowed.update(g.nodes_of(r))
+            u = unparse(t)
+            if (u in ("len(%s) == 0" % tv, "0 == len(%s)" % tv, "not %s" % tv) and pol) or (u in ("len(%s) != 0" % tv, "len(%s) > 0" % tv, "%s" % tv) and not pol):
+                allowed.update(g.nodes_of(r))
     for c in gets:
         ctx.check(g.every_path_from(g.nodes_of(c), allowed, skip_exc=True), c,
                   "every normal path from this get reaches _dispatch(tasks) unless the batch is empty",
